@@ -19,7 +19,8 @@ SRC_DIRS = [
 ]
 
 SHIMS = os.path.join(VERIF, "shims")
-EVIDENCE = os.path.join(VERIF, "evidence")
+# seeded-bug trials (tools/seedtrial.sh) redirect evidence so that /verif/evidence always comes from runs against /repo itself
+EVIDENCE = os.environ.get("VERIF_EVIDENCE_DIR") or os.path.join(VERIF, "evidence")
 REPLAYS = os.path.join(EVIDENCE, "replays")
 WORK = os.environ.get("VERIF_WORK", os.path.join(VERIF, ".work"))
 KNOWN_FINDINGS = os.path.join(VERIF, "known_findings.json")
